@@ -113,6 +113,7 @@ type Obligation struct {
 	Seconds float64
 	Output  string
 	Bytes   int
+	Replay  *ReplayInfo
 }
 
 type Exec struct {
